@@ -166,6 +166,21 @@ def root_of(E, ptr, depth=0):
             p = ini
         else:
             break
+    # a block of a chunk iterator (`for (a, b) in x.chunks_exact(n).zip(y.chunks_exact_mut(n))`, `a.as_ptr()`): the k-th block of x starts
+    # n elements after the (k-1)-th, i.e. a pointer into x bumped by n elements per iteration of the loop that draws the blocks
+    ck = chunk_base(p.base)
+    if ck is not None:
+        H, coll, n = ck
+        # element size of the chunked slice (not of the pointer it was cast to)
+        esz = None
+        if coll[0] in ('p', 'v'):
+            ty = LN.pointee(E.fn.local_ty(coll[1])) or ''
+            if ty.startswith('[') and ty.endswith(']'):
+                esz = LN.sizeof(ty[1:-1].split(';')[0])
+        if esz is None:
+            return None, steps, off
+        steps.append((H, ('chunks', coll, n), {'': Fraction(n * esz)}))
+        p = Ptr(('slice', coll), {}, p.elem)
     # index-derived row steps (`base.add(j * stride)`): same meaning as a pointer bumped by `stride` in every iteration of loop H
     for k in list(off):
         if isinstance(k, str) and k.startswith('it#') and '*' in k:
@@ -297,3 +312,31 @@ def bump_view(E):
             a.value = subv(a.value)
     E.local_mem = {k: [(o, subv(v)) for o, v in lst] for k, lst in E.local_mem.items()}
     return E
+
+
+def chunk_base(base):
+    """base = ('slice', <element k of a chunks_exact / chunks_exact_mut iterator, possibly zipped / by_ref>): (loop, collection, chunk length)."""
+    if not (isinstance(base, tuple) and len(base) == 2 and base[0] == 'slice'):
+        return None
+    e = base[1]
+    idx = None
+    if isinstance(e, tuple) and e and e[0] == 'fld' and str(e[2]).isdigit():
+        idx, e = int(e[2]), e[1]
+    if not (isinstance(e, tuple) and len(e) == 3 and e[0] == 'elem' and isinstance(e[1], tuple) and e[1] and e[1][0] == 'iter'):
+        return None
+    H, it = e[2], e[1][1]
+
+    def peel(x):
+        while isinstance(x, tuple) and x and ((x[0] == 'call' and x[1].endswith(('Iterator::by_ref', 'IntoIterator::into_iter')) and len(x[2]) == 1) or x[0] in ('ref', 'deref')):
+            x = x[2][0] if x[0] == 'call' else x[1]
+        return x
+    it = peel(it)
+    if idx is not None:
+        if not (isinstance(it, tuple) and it[0] == 'call' and it[1].endswith('Iterator::zip') and len(it[2]) == 2 and idx in (0, 1)):
+            return None
+        it = peel(it[2][idx])
+    if isinstance(it, tuple) and it and it[0] == 'call' and it[1].endswith(('slice::chunks_exact', 'slice::chunks_exact_mut')) and len(it[2]) == 2:
+        coll, n = it[2]
+        if isinstance(n, tuple) and n[0] == 'k' and isinstance(n[1], int) and n[1] > 0:
+            return H, norm(coll), n[1]
+    return None
